@@ -317,15 +317,18 @@ def build_extracted(r):
 
 CARVE_OUTS = [
     "numbers are integers with |x| < 2^53; complex arrays and non-integer data are outside the reference (cases whose observed result is not integer-valued are rejected by the generator and counted)",
-    "pervasive functions on box arrays, comparisons/min/max between a number and a character, multiply with characters, character arithmetic leaving [0, 0xD7FF]",
-    "fill + pervasive/couple/join when the ranks differ (documentation only shows equal-rank padding); fill of another element type than the array counts as no fill where a fill would be needed, and is left open for select/pick/reshape",
+    "pervasive functions on box arrays, comparisons/min/max between a number and a character, multiply with characters, character arithmetic leaving [0, 0xD7FF], monadic pervasive functions on character arrays",
+    "fill + pervasive/couple/join when the ranks differ, and fill + pervasive when a matched pair of axes has lengths 1 and n (repeat or pad?); equal-rank padding incl. arguments with empty rows IS compared",
+    "a fill of another element type than the array counts as no fill (number and character arrays); any fill with a BOX array is left open (the implementation boxes the fill); couple/join of a box array with a non-box array",
+    "scalar reshape (copies) with a fill set, and with a negative count",
     "first/last of an empty array with a fill value; match of two EMPTY arrays of different element type",
     "join with an empty rank-1 list (shape [0]) on either side (implementation special-cases it; documentation silent)",
     "sort/rise/fall of box arrays (box order only described as 'lexicographic'); rise/fall/classify/deduplicate of a scalar",
-    "take/drop/rotate/select/keep on a scalar array; take by negative infinity; drop by an infinity; amounts of rank >= 2 for take/drop/rotate/reshape/keep (more amounts than axes is claimed to be an error since round 3)",
+    "take/drop/rotate/select/keep on a scalar array; take by negative infinity; drop by an infinity; amounts of rank >= 2 for take/drop/rotate/reshape/keep",
+    "NOT carved out: more amounts than axes is an error for take and drop; for rotate it is an error unless the array has no elements, which is then returned unchanged (source: tests/dyadic.ua:72-73, the doc comment is silent)",
     "select/pick with an infinite or non-integer index when a fill is set; pick with a negative index when a fill is set",
     "reshape: scalar infinite shape, derived axis when the other axes multiply to 0, cycling an empty array",
-    "keep: counts longer than the array, non-integer scalar count, non-number fill",
+    "keep: counts longer than the array, non-integer scalar count, non-number fill (NOT carved out: a negative scalar count keeps |count| copies and reverses the rows; source: tests/dyadic.ua:164, the doc sentence about negative counts concerns lists)",
     "memberof/indexin: searched-for array of rank lower than the rows of the searched-in array, mismatching cell shape, scalar searched-in array, different element types",
     "find: pattern of higher rank than the array, empty pattern, scalar array, different element types, any fill value set",
     "un box of a non-box or of a non-scalar box array; range/where of box arrays and of |n| > 4096; range of a vector longer than 8",
@@ -336,12 +339,20 @@ CARVE_OUTS = [
 def run(r):
     quick = r.tier == "quick"
     r.trusted += TRUSTED_COMMON + [
-        "the reference coq/Model/Prims.v is a reading of the prose and examples of parser/src/defs.rs; its [Unspec] outcomes (documentation silent) are excluded from the comparison and listed as carve-outs",
-        "lib/c08.py: compact case -> Gallina term renderer; extract/driver.ml: compact case -> extracted datatypes (thorough tier), cross-checked against vm_compute on a sample",
-        "thorough tier: Coq extraction to OCaml (ExtrOcamlBasic only) and ocamlopt",
+        "the reference coq/Model/Prims.v is a reading of the prose and examples of parser/src/defs.rs (two rules rest on the repository's own tests instead, "
+        "because the doc comment is silent and upstream asserts them: negative scalar keep reverses, tests/dyadic.ua:164; rotate with extra amounts leaves an element-less array unchanged, "
+        "tests/dyadic.ua:72-73); its [Unspec] outcomes (documentation silent) are excluded from the comparison, counted, and listed as carve-outs; interpreter crashes are reported even there",
+        "lib/c08.py: compact case -> Gallina term renderer, localisation of a disagreement to the first diverging single primitive (on the OBSERVED intermediate stacks) and feature-based finding keys; "
+        "harness/src/bin/c08.rs: generator, Value <-> compact conversion (byte or float storage chosen at random for small naturals), regression corpus replay (corpus/c08.txt, replayed first on every run)",
+        "thorough tier: the reference is extracted with exactly `Require Extraction. Require Import ExtrOcamlBasic. Extraction \"prims.ml\" run check_case arr_eqb.` (no other Extract directive: "
+        "nat/positive/N/Z stay the Coq datatypes; bool/option/list/prod/unit map to OCaml's by ExtrOcamlBasic), compiled with ocamlfind ocamlopt together with extract/driver.ml "
+        "(compact case -> extracted datatypes, prints Prims.check_case per line); about 1500 evenly spaced verdicts (every ~80th of 120000 cases) plus up to 200 disagreements are re-evaluated with vm_compute and must agree",
+        "quick tier: vm_compute of Prims.check_case on all cases (shards of <= 120 cases / 250 kB); the coq stack limit is raised for the large list literals",
     ]
     r.assumptions += ["arrays satisfy length(data) = product(shape) (premise wf of the law theorems; C05's invariant)",
-                      "numbers are integers (exactly representable doubles); the laws are proved of the reference, the implementation is only sampled"]
+                      "numbers are integers (exactly representable doubles, |x| < 2^53); the 26 law theorems are proved of the reference for all well-formed arrays, the implementation is only sampled against it",
+                      "the law theorems with size premises (reshape_deshape: dims <= 64 and <= 100000 elements; keep_neg_scalar: count <= 64) are limited by the reference's resource guards, not by the laws",
+                      "map keys, sortedness / boolean marks and labels of values are outside the reference (arguments are built without them; results are compared as shape + element type + data)"]
     r.coverage["carve_outs"] = CARVE_OUTS
     if not r.harness(["c08"]):
         return
@@ -429,9 +440,13 @@ def run(r):
         r.sample({"src": c["src"], "case": c["line"][:400], "error": c["err"]})
     r.coverage["evaluations"] = compared
     r.coverage["distinct_nontrivial"] = len(set(c["line"] for i, c in enumerate(cases) if i not in set(unspec) and c["info"]["stack"] and any(a[1] for a in c["info"]["stack"])))
-    r.coverage["rule"] = ("a case = optional scalar fill + straight-line program of 1-4 modelled primitives (amount arguments from the stack or as "
-                          "rank-0/1 literals incl. infinities, fractions, NaN) + argument arrays (number/character/box, rank 0-4, axis lengths 0-4, "
-                          "half of the shapes by exhaustive sweep); non-trivial = compared (not Unspec) and some argument has rank >= 1")
+    r.coverage["rule"] = ("first the regression corpus (former failing inputs, both number storages), then generated cases: a case = optional scalar number/character fill + "
+                          "straight-line program of 1-4 modelled primitives (chosen op first, arguments generated to suit it: agreeing / padded / disagreeing shapes for pervasives, "
+                          "rows / suffixes for couple and join, windows for find, searched-in arrays with repeated rows and searched-for cells out of order for memberof/indexin, "
+                          "in- and out-of-range / negative / too many amounts; later ops chosen on the observed intermediate stacks; amount arguments from the stack or as "
+                          "rank-0/1 literals incl. infinities, fractions, NaN) + argument arrays (number/character/box, rank 0-4, axis lengths 0-4, half of the shapes by "
+                          "exhaustive sweep over all 781 shapes); verdict per case by Prims.check_case: agree / disagree / Unspec; a disagreement or an interpreter crash is a violation "
+                          "keyed by the first diverging primitive and its input class; non-trivial = compared (not Unspec) and some argument has rank >= 1")
     r.log("tie: %d cases, %d compared, %d unspecified, %d mismatches" % (len(cases), compared, len(unspec), len(mism)))
 
     # ---- disagreements: every one is a concrete input on which implementation and documented reference differ;
